@@ -11,6 +11,7 @@ import (
 
 	asmenum "github.com/llir/llvm/asm/enum"
 	"github.com/llir/llvm/ir"
+	"github.com/llir/llvm/ir/constant"
 	"github.com/llir/llvm/ir/enum"
 	"github.com/llir/llvm/ir/metadata"
 	"github.com/llir/llvm/ir/types"
@@ -190,7 +191,7 @@ func TestVerifC18(t *testing.T) {
 			for _, c := range en.consts {
 				tm := enum.TLSModel(c.val)
 				roundtrip("TLS model "+c.name, func(m *ir.Module) {
-					g := m.NewGlobal("g", types.I32)
+					g := m.NewGlobalDef("g", constant.NewInt(types.I32, 1))
 					g.TLSModel = tm
 				}, func(m *ir.Module) string {
 					if got := m.Globals[0].TLSModel; got != tm {
